@@ -29,6 +29,9 @@ var out = bufio.NewWriter(os.Stdout)
 
 var netErr = errors.New("connection dropped")
 
+// wireMode: the next scenario reaches the mock coordinator through real *Conn objects (byte-level path)
+var wireMode bool
+
 // ---------------------------------------------------------------- scenario state
 
 type userFn struct {
@@ -51,6 +54,7 @@ type scenario struct {
 	fns     []*userFn
 	nextRes chan nextResult
 	nextOut bool
+	wire    bool
 	member  int
 	cgID    string
 	errsSeen int
@@ -82,6 +86,8 @@ func newScenario(rng *rand.Rand, topics []string, watch bool, errRate int) *scen
 	kafka.VerifGroupResetConnIDs()
 	kafka.VerifStart()
 	kafka.VerifSetSink(s.log.Sink)
+	s.wire = wireMode
+	kafka.VerifSetGroupWire(wireMode)
 	kafka.VerifSetGroupHandler(s.mock.Handle)
 	return s
 }
@@ -136,6 +142,9 @@ func (s *scenario) okReply(c kafka.VerifCoordCall) kafka.VerifCoordReply {
 		if s.rng.Intn(2) == 0 {
 			r.LeaderID = m
 			r.Members = []kafka.VerifGroupMember{{ID: m, Topics: s.topics}}
+			if s.errRate > 0 && s.rng.Intn(8) == 0 {
+				r.Protocol = "no-such-balancer" // the leader's assignment step fails locally
+			}
 		}
 		return r
 	case "syncGroup":
@@ -146,6 +155,9 @@ func (s *scenario) okReply(c kafka.VerifCoordCall) kafka.VerifCoordReply {
 					a[t] = append(a[t], int32(i))
 				}
 			}
+		}
+		if s.errRate > 0 && s.rng.Intn(10) == 0 {
+			return kafka.VerifCoordReply{RawAssign: []byte{0, 1, 0, 0, 0, 9, 0}} // undecodable assignment
 		}
 		return kafka.VerifCoordReply{Assignments: a}
 	case "offsetFetch":
@@ -420,7 +432,9 @@ func boolTok(s string) string {
 	return "0"
 }
 
-func canon(evs []kafka.VerifEvent, topics []string) (string, map[string]int) {
+func canon(evs []kafka.VerifEvent, topics []string, wire bool) (string, map[string]int) {
+	pendRet := map[string][]string{}
+	var wireRets [][]string
 	genIdx := map[string]int{}
 	connGen := map[string]int{} // connection id -> generation index
 	lastJoinConn := ""
@@ -459,6 +473,28 @@ func canon(evs []kafka.VerifEvent, topics []string) (string, map[string]int) {
 					add(fmt.Sprintf("watchCall:%d:%s", g, topicIdx(a[4])))
 				}
 			}
+		case "M.Wire":
+			// byte-level path: the library's own conclusion replaces the coordinator's decision as the call's result
+			if pa, ok := pendRet[a[0]+"/"+a[1]]; ok {
+				delete(pendRet, a[0]+"/"+a[1])
+				pa = append([]string(nil), pa...)
+				pa[2] = a[2]
+				wireRets = append(wireRets, pa)
+			}
+		}
+		if e.Kind == "M.Ret" && wire && a[1] != "connect" && a[1] != "readPartitions" {
+			pendRet[a[0]+"/"+a[1]] = a
+			continue
+		}
+		if e.Kind == "M.Wire" {
+			if len(wireRets) == 0 {
+				continue
+			}
+			a = wireRets[len(wireRets)-1]
+			wireRets = wireRets[:0]
+			e.Kind = "M.Ret"
+		}
+		switch e.Kind {
 		case "M.Ret":
 			conn, method, ec := a[0], a[1], a[2]
 			g, isGen := connGen[conn]
@@ -560,7 +596,7 @@ func canon(evs []kafka.VerifEvent, topics []string) (string, map[string]int) {
 
 func (s *scenario) emit(name string) {
 	evs := s.stop()
-	tr, _ := canon(evs, s.topics)
+	tr, _ := canon(evs, s.topics, s.wire)
 	st := "ok"
 	if len(s.status) > 0 {
 		st = strings.Join(s.status, ",")
@@ -810,6 +846,7 @@ func main() {
 		scenarioBackoff(rng)
 		scenarioHeartbeatRate(rng)
 		scenarioLateNext(rng)
+		scenarioOptions()
 	}
 	if only == "d8" {
 		scenarioD8(rng)
@@ -824,12 +861,14 @@ func main() {
 		}
 		for i := 0; i < n; i++ {
 			topics := [][]string{{"t"}, {"t", "u"}, {"a", "b", "c"}}[rng.Intn(3)]
+			wireMode = rng.Intn(3) == 0
 			s := newScenario(rng, topics, rng.Intn(2) == 0, []int{0, 10, 25, 40}[rng.Intn(4)])
 			s.start(time.Duration(1+rng.Intn(3))*time.Millisecond, time.Duration(1+rng.Intn(3))*time.Millisecond, time.Duration(2+rng.Intn(4))*time.Millisecond)
 			s.randomRun(20 + rng.Intn(80))
 			s.emit("random")
 		}
 	}
+	wireMode = false
 	if only == "" || only == "multi" {
 		n := 10
 		if gen.Thorough() {
